@@ -1,7 +1,7 @@
 CFG = {
     "modules": ["Parsley.Props.C04", "Parsley.Props.C04Ctx", "Parsley.Props.C04E2E", "Parsley.Props.C04Hist", "Parsley.Props.C04HistMix", "Parsley.Props.C04Enc",
                 "Parsley.Props.C04Render", "Parsley.Props.C04Hyb", "Parsley.Props.C04ObjStm",
-                "Parsley.Props.C04RenderDeep", "Parsley.Props.C04AnyFlate", "Parsley.Props.C04HybObjStm", "Parsley.Props.C04Fwd", "Parsley.Props.C04All", "Parsley.Props.C04LenMember"],
+                "Parsley.Props.C04RenderDeep", "Parsley.Props.C04AnyFlate", "Parsley.Props.C04HybObjStm", "Parsley.Props.C04Fwd", "Parsley.Props.C04All", "Parsley.Props.C04LenMember", "Parsley.Props.C04SelfRow"],
     "theorems": [
         "Parsley.C04.prev_cycle_or_oob_rejected", "Parsley.C04.root_from_newest", "Parsley.C04.merge_is_newest_wins_partial",
         "Parsley.C04.infoOf_inFile",
@@ -87,6 +87,7 @@ CFG = {
         "Parsley.LoaderE2E.renderObj_stm", "Parsley.C03.exDeepO5_simple",
         # follow-up C03_6 / C04_6 (generator strengthening): the /Length of an ordinary stream stored in an object stream of an older revision
         "Parsley.C04.length_holder_in_objstm_history_witness",
+        "Parsley.C04.xrefstm_self_entry_unchecked_history_witness",
     ],
     "partial": {
         "merge_is_newest_wins_partial":
@@ -204,6 +205,8 @@ CFG = {
             "IDENTITY MISMATCH BY RETARGETING ACROSS REVISIONS (`reth`, after the missed seed C03_8, see C03 `ret`): histories of 2 and 3 revisions (layouts at random; revision i writes 2 again, a plain object, a stream with direct /Length and a stream with forward referenced /Length + holder) in which ONE entry - of B in the section of revision bRev, B an object of that revision or a number no object carries - "
             "carries the offset of an object A of revision aRev: every (entry, object) pair, i.e. A in a NEWER revision (walked before B's entry), an OLDER one (after it) or the same (number order), incl. superseded definitions of 2; plus the other targets (alt offset, into the object, endobj, every section, /XRefStm stream, header); hybrid sections list A's / B's entry in table or /XRefStm stream; offsets of later revisions are found by re-rendering until stable; "
             "must be REJECTED (decided on the bytes), except entries of 2 below the newest revision, which are shadowed: controls that must load exactly; 589 cases per seed (thorough: three rounds); corpus/C04/retarget_across_revisions.case. "
+            "SELF ROWS in histories (41 more `reth` cases per seed): the row the cross-reference stream object 100 + i of revision i has for itself, aimed at objects of every revision (older, same, NEWER), into an object, at an endobj, at the header - known class xrefstm-self-entry-unchecked (see C03) for exactly that shape and exactly the exact load; when revision i is a classic table the added entry is an ordinary mismatch and must be rejected; "
+            "corpus/C04/known_xrefstm-self-entry-unchecked.case (the two witness histories of Props/C04SelfRow.lean as `selfrow` lines). "
             "Every 3rd history also with one "
             "corruption (correspondence and no panic). Oracle = DocSpec.resolve over the revisions on the chain. Classifiers decided on the case: "
             "'generation-changed' = some number is mentioned with two generations; 'objstm-member-touched-later' = a member number is mentioned by a later "
